@@ -190,6 +190,12 @@ fn gen_regions(t: &mut Tape) -> Gen13 {
     g
 }
 
+/// Text of a generated keyword-region program (also used by C17).
+pub fn gen_regions_text(t: &mut Tape) -> String {
+    let g = gen_regions(t);
+    render(&g.parts)
+}
+
 impl Prop for C13 {
     fn id(&self) -> &'static str {
         "C13"
